@@ -359,6 +359,14 @@ class Body:
                             out.add((r, p + path))
                     else:
                         out.add((("const", op.get("repr") or op.get("fn") or "?"), path))
+                elif k == "aggregate" and rv.get("akind") == "array" and path and path[0] in ("[]", "[_]"):
+                    # an unknown element of an array literal: any of its operands
+                    for op in rv["ops"]:
+                        if op["k"] in ("copy", "move"):
+                            for (r, p) in self.trace(op["place"], through, _seen, depth + 1):
+                                out.add((r, p + tuple(path[1:])))
+                        else:
+                            out.add((("const", op.get("val") if op.get("val") is not None else op.get("repr")), tuple(path[1:])))
                 elif k == "aggregate":
                     sub = self._agg_field(rv, path)
                     if sub is not None:
@@ -399,6 +407,30 @@ class Body:
                     else:
                         out.add((("call", b, callee(t)), path))
         return out
+
+    def _through_agg(self, root, path, through, _seen, depth):
+        """Origins of `path` inside the aggregate statement `root` = ('agg', bb, idx), or None."""
+        rv = self.blocks[root[1]]["stmts"][root[2]]["rv"]
+        out = set()
+        if rv.get("akind") == "array" and path and path[0] in ("[]", "[_]"):
+            cands = [(op, tuple(path[1:])) for op in rv["ops"]]
+        else:
+            sub = self._agg_field(rv, path)
+            if sub is None:
+                return None
+            cands = [sub]
+        for op, rest in cands:
+            if op["k"] in ("copy", "move"):
+                for (r, p) in self.trace(op["place"], through, _seen, depth + 1):
+                    full = p + rest
+                    deeper = self._through_agg(r, full, through, _seen, depth + 1) if (r[0] == "agg" and full and depth < 30) else None
+                    if deeper:
+                        out |= deeper
+                    else:
+                        out.add((r, full))
+            else:
+                out.add((("const", op.get("val") if op.get("val") is not None else op.get("repr")), rest))
+        return out or None
 
     @staticmethod
     def _agg_field(rv, path):
@@ -479,7 +511,12 @@ class Body:
                     out.add((("range", r[1]), tuple(item_path)))
                 else:
                     for (r2, p2) in self.trace(args[0]["place"], through, _seen, depth + 1):
-                        out.add((r2, p2 + ("[]",) + tuple(item_path)))
+                        full = p2 + ("[]",) + tuple(item_path)
+                        deeper = self._through_agg(r2, full, through, _seen, depth + 1) if r2[0] == "agg" else None
+                        if deeper:
+                            out |= deeper
+                        else:
+                            out.add((r2, full))
             else:
                 # an iterator produced by a function of the crate (e.g. Circuit::wires): keep it as an opaque source
                 out.add((("iter", r[1], callee(t)), tuple(item_path)))
